@@ -20,6 +20,8 @@
                            outcome"), so the row is due; its exception column is free
          st       <<session, level>>  the client's view of the ECU state before
                                the request (level -1: none)
+         done     BOOLEAN      the transport handed a final reply (not pending / busy) to
+                               the client before the call ended
          impl     "on" | "off" | "amb"  implicit logging during the exchange
                                ("amb": switched while the call was running)
          ana      BOOLEAN      the caller tagged the request ANALYZE
@@ -54,7 +56,9 @@ EXTENDS Integers, Sequences, TLC
 
 Last(s) == s[Len(s)]
 
-MustLog(x, e) == x.closed /\ e.impl = "on" /\ e.nw > 0 /\ e.out # "cancel"
+\* e.done: the transport had handed a final reply to the client before the call ended.  Such an exchange is
+\* complete ("no completed exchange is missing") even when the call was cut by the cancellation afterwards.
+MustLog(x, e) == x.closed /\ e.impl = "on" /\ e.nw > 0 /\ (e.out # "cancel" \/ e.done)
 MayLog(e)     == e.impl # "off"
 
 \* A reply that was received and refused as mismatching / malformed (e.illegal) is still "what the ECU
